@@ -50,6 +50,12 @@ def utf8DecodeLastRune (s : BStr) : Int × Int :=
     let r := decodeRune (s.drop start)
     if start + r.2 = n then ((r.1.toNat : Int), (r.2 : Int)) else (0xFFFD, 1)
 
+/-- `s[i]` of a string: the byte, as an integer; run-time panic when out of range -/
+def idxByte (s : BStr) (i : Int) : G Int :=
+  if i < 0 then throw .panic else match s[i.toNat]? with | some b => pure (b.toNat : Int) | none => throw .panic
+/-- `utf8.RuneStart(b)`: not a continuation byte -/
+def utf8RuneStart (b : Int) : Bool := b % 256 / 64 != 2
+
 def utf8RuneCount (s : BStr) : Int := (rangeStr s).length
 
 def stringsHasPrefix {α} [BEq α] (s pre : List α) : Bool := pre.isPrefixOf s
